@@ -5,3 +5,6 @@ import KojenVerif.Props.C19
 #print axioms KojenVerif.C19.C19_folder_chain
 #print axioms KojenVerif.C19.C19_namespace_wrapper
 #print axioms KojenVerif.C19.C19_distinct_names
+#print axioms KojenVerif.C19.C19_own_namespace_prefix_only
+#print axioms KojenVerif.C19.C19_include_entry
+#print axioms KojenVerif.C19.C19_includes_namespace_faithful
